@@ -157,6 +157,25 @@ Theorem C02_lookup_src_plain : forall pre d m k,
 Proof. exact lookup_src_plain. Qed.
 Print Assumptions C02_lookup_src_plain.
 
+(* backends behind the real HTTP proxy: a reply whose status is not 200/201 is a
+   non-successful step in every status mode - an error (default, return_error_code) or, with
+   return_error_details, a response that carries error_<name> and is not complete *)
+Theorem C02_http_non2xx_not_successful : forall m r,
+  ok_status (h_code r) = false ->
+  ok_out (http_outcome m r) = false /\ full_out (http_outcome m r) = false.
+Proof. exact http_non2xx_stops. Qed.
+Print Assumptions C02_http_non2xx_not_successful.
+
+(* ... so the chain stops there: with successful backends before it, exactly those and the
+   failing one are entered (in order, no overlap), whatever follows, every status, every mode *)
+Theorem C02_http_failure_stops_chain : forall ts pre m r rest ps0,
+  ok_status (h_code r) = false ->
+  forallb (fun x => ok_out (http_outcome (fst x) (snd x))) pre = true ->
+  List.length ts = List.length (pre ++ (m, r) :: rest) ->
+  map shape (fst (seq_run_http ts (pre ++ (m, r) :: rest) ps0)) = expected_shapes (S (List.length pre)).
+Proof. exact http_failure_stops_chain. Qed.
+Print Assumptions C02_http_failure_stops_chain.
+
 (* ---- non-vacuity ---- *)
 Definition ex_ts : list tmpl :=
   [[Lit "/b0"]; [Lit "/b1"]; [Lit "/b2/"; Hole 0 ["id"]; Lit "/"; Hole 1 ["o"; "k"]]].
@@ -230,3 +249,14 @@ Example C02_ex_quirk :
   fst (seq_run exq_ts exq_outs []) =
     [ECall 0 "/b0"; ERet 0; ECall 1 "/b1/shallow/{{.Resp0_a.x.nope}}"; ERet 1].
 Proof. vm_compute. repeat split; reflexivity. Qed.
+
+Example C02_ex_http_404_details :
+  seq_run_http [[Lit "/b0"]; [Lit "/b1"]; [Lit "/b2"]]
+    [(HDefault, {| h_code := 200; h_body := "{}"; h_enc := ""; h_decoded := Some [("a", JNum "1")] |});
+     (HDetails "n1", {| h_code := 404; h_body := "gone"; h_enc := "text/plain"; h_decoded := None |});
+     (HDefault, {| h_code := 200; h_body := "{}"; h_enc := ""; h_decoded := Some [("c", JNum "3")] |})] [] =
+  ([ECall 0 "/b0"; ERet 0; ECall 1 "/b1"; ERet 1],
+   (Some {| data := Some [("error_n1", JObj [("http_status_code", JNum "404"); ("http_body", JStr "gone");
+                                             ("http_body_encoding", JStr "text/plain")]); ("a", JNum "1")];
+            complete := false |}, RNone)).
+Proof. vm_compute. reflexivity. Qed.
